@@ -48,27 +48,37 @@ type Tagbody struct {
 func (f *Tagbody) Call(s *slip.Scope, args slip.List, depth int) slip.Object {
 	ns := s.NewScope()
 	ns.TagBody = true
-	d2 := depth + 1
-	for i := 0; i < len(args); i++ {
+	if exit := EvalTagBody(ns, args, 0, depth+1); exit != nil {
+		return exit
+	}
+	return nil
+}
+
+// EvalTagBody evaluates args[start:] as the body of a tagbody, also the
+// implicit one of prog, do, dolist, dotimes and the like. Tags are labels
+// and are not evaluated, a go to one of them, before or after the go,
+// continues after the tag. The return is nil when the end of the body is
+// reached. It is the *slip.ReturnResult of a return-from or the *GoTo of a
+// go to a tag that is not in the body, a tag of an enclosing tagbody, when
+// a form evaluates to one. The caller must hand that up.
+func EvalTagBody(ns *slip.Scope, args slip.List, start, depth int) slip.Object {
+	for i := start; i < len(args); i++ {
 		if isTag(args[i]) {
 			continue // a tag is a label and is not evaluated
 		}
-		result := slip.EvalArg(ns, args, i, d2)
-		if rr, _ := result.(*slip.ReturnResult); rr != nil {
-			return rr
-		}
-		if gt, _ := result.(*GoTo); gt != nil {
-			// The tag can be before or after the go. A tag of an enclosing
-			// tagbody is left for that tagbody.
+		switch tr := slip.EvalArg(ns, args, i, depth).(type) {
+		case *slip.ReturnResult:
+			return tr
+		case *GoTo:
 			target := -1
-			for j, a := range args {
-				if isTag(a) && slip.ObjectEqual(a, gt.Tag) {
+			for j := start; j < len(args); j++ {
+				if isTag(args[j]) && slip.ObjectEqual(args[j], tr.Tag) {
 					target = j
 					break
 				}
 			}
 			if target < 0 {
-				return gt
+				return tr
 			}
 			i = target
 		}
